@@ -64,8 +64,21 @@ func HkdfNew(h func() hash.Hash, secret, salt, info []byte) io.Reader {
 // crypto/rand: arbitrary bytes, never fails.
 type MRand struct{}
 
+// Draws of 16 bytes or more do not repeat (a collision has probability 2^-128 or less): what is
+// derived from two draws by injective functions is then different as well.
+var randOuts [][]byte
+
 func (MRand) Read(p []byte) (int, error) {
-	copy(p, vFresh("rand", len(p)))
+	out := vFresh("rand", len(p))
+	if len(p) >= 16 {
+		for i := range randOuts {
+			if len(randOuts[i]) == len(out) {
+				vAssume(!vBytesEq(randOuts[i], out))
+			}
+		}
+		randOuts = append(randOuts, out)
+	}
+	copy(p, out)
 	return len(p), nil
 }
 
